@@ -11,6 +11,10 @@ from claripy.operations import commutative_operations, opposites
 
 log = logging.getLogger(__name__)
 
+# When both operands are known to have the same sign, a signed comparison is the unsigned one
+_UNSIGNED_COMPARISON = {"SLT": "ULT", "SLE": "ULE", "SGT": "UGT", "SGE": "UGE"}
+_SIGNED_COMPARISONS = frozenset(_UNSIGNED_COMPARISON)
+
 
 class Balancer:
     """
@@ -438,8 +442,10 @@ class Balancer:
         other_side = truism.args[1][len(truism.args[1]) - 1 : len(truism.args[1]) - num_zeroes]
 
         if claripy.backends.vsa.is_true(other_side == 0):
-            # We can safely eliminate this layer of ZeroExt
-            return Bool(truism.op, (inner, truism.args[1][len(truism.args[1]) - num_zeroes - 1 : 0]))
+            # We can safely eliminate this layer of ZeroExt. Both sides are non-negative, but what remains of them
+            # need not be
+            op = _UNSIGNED_COMPARISON.get(truism.op, truism.op)
+            return Bool(op, (inner, truism.args[1][len(truism.args[1]) - num_zeroes - 1 : 0]))
 
         return truism
 
@@ -451,8 +457,10 @@ class Balancer:
 
         # TODO: what if this is a set value, but *not* the same as other_side
         if claripy.backends.vsa.identical(left_side, other_side):
-            # We can safely eliminate this layer of ZeroExt
-            return Bool(truism.op, (truism.args[0].args[1], truism.args[1][len(truism.args[1]) - num_zeroes - 1 : 0]))
+            # We can safely eliminate this layer of SignExt. Both sides have the same sign, but what remains of them
+            # need not have
+            op = _UNSIGNED_COMPARISON.get(truism.op, truism.op)
+            return Bool(op, (truism.args[0].args[1], truism.args[1][len(truism.args[1]) - num_zeroes - 1 : 0]))
 
         return truism
 
@@ -460,36 +468,35 @@ class Balancer:
     def _balance_extract(truism):
         high, low, inner = truism.args[0].args
         inner_size = len(inner)
+        signed = truism.op in _SIGNED_COMPARISONS
 
         if high < inner_size - 1:
             left_msb = inner[inner_size - 1 : high + 1]
             left_msb_zero = claripy.backends.vsa.is_true(left_msb == 0)
         else:
             left_msb = None
-            left_msb_zero = None
+            left_msb_zero = True
 
         if low > 0:
-            left_lsb = inner[high - 1 : 0]
+            left_lsb = inner[low - 1 : 0]
             left_lsb_zero = claripy.backends.vsa.is_true(left_lsb == 0)
         else:
             left_lsb = None
-            left_lsb_zero = None
+            left_lsb_zero = True
 
-        if left_msb_zero and left_lsb_zero:
+        if left_msb_zero and left_lsb_zero and (not signed or left_msb is None):
+            # inner is the extracted value shifted left by `low` bits (both sides keep their sign if no high bits
+            # were cut off, otherwise only unsigned comparisons and (in)equalities carry over)
             new_left = inner
-            new_right = claripy.Concat(claripy.BVV(0, len(left_msb)), truism.args[1], claripy.BVV(0, len(left_lsb)))
-            return Bool(truism.op, (new_left, new_right))
-        if left_msb_zero:
-            new_left = inner
-            new_right = claripy.Concat(claripy.BVV(0, len(left_msb)), truism.args[1])
-            return Bool(truism.op, (new_left, new_right))
-        if left_lsb_zero:
-            new_left = inner
-            new_right = claripy.Concat(truism.args[1], claripy.BVV(0, len(left_lsb)))
+            new_right = truism.args[1]
+            if left_msb is not None:
+                new_right = claripy.Concat(claripy.BVV(0, len(left_msb)), new_right)
+            if left_lsb is not None:
+                new_right = claripy.Concat(new_right, claripy.BVV(0, len(left_lsb)))
             return Bool(truism.op, (new_left, new_right))
 
-        if low == 0 and truism.args[1].op == "BVV" and truism.op not in {"SGE", "SLE", "SGT", "SLT"}:
-            # single-valued rhs value with an unsigned operator
+        if low == 0 and truism.args[1].op == "BVV" and truism.op in {"UGE", "UGT"}:
+            # single-valued rhs value with an unsigned lower bound: inner >= inner[high:0] >= rhs
             # Eliminate Extract on lhs and zero-extend the value on rhs
             new_left = inner
             new_right = claripy.ZeroExt(inner.size() - truism.args[1].size(), truism.args[1])
@@ -536,7 +543,9 @@ class Balancer:
             # we can cut these guys off!
             remaining_left = claripy.Concat(*truism.args[0].args[1:])
             remaining_right = truism.args[1][size - len(left_msb) - 1 : 0]
-            return Bool(truism.op, (remaining_left, remaining_right))
+            # Both sides are non-negative, but what remains of them need not be
+            op = _UNSIGNED_COMPARISON.get(truism.op, truism.op)
+            return Bool(op, (remaining_left, remaining_right))
         # TODO: handle non-zero single-valued cases
         return truism
 
@@ -552,12 +561,20 @@ class Balancer:
             return truism
         shift_amount = shift_amount_values[0]
 
+        if not 0 < shift_amount < len(expr) or truism.op in _SIGNED_COMPARISONS:
+            return truism
+
+        # the bits shifted out must be zero, otherwise the comparison says nothing about them
+        lhs_upper = claripy.Extract(len(expr) - 1, len(expr) - shift_amount, expr)
+        if not claripy.backends.vsa.is_true(lhs_upper == 0):
+            return truism
+
         rhs_lower = claripy.Extract(shift_amount - 1, 0, rhs)
         rhs_lower_values = claripy.backends.vsa.eval(rhs_lower, 2)
         if len(rhs_lower_values) == 1 and rhs_lower_values[0] == 0:
             # we can remove the __lshift__
 
-            return Bool(truism.op, (expr, rhs >> shift_amount))
+            return Bool(truism.op, (expr, claripy.LShR(rhs, shift_amount)))
 
         return truism
 
